@@ -22,7 +22,10 @@ from ..oracles import ctf_sets as S
 from ..oracles import ctf_fscm as F
 
 PROP = "C19"
-RULE = ("structured families first: (1) chains of length 3-4 with every set of shortcut edges and at most one bidirected edge x "
+RULE = ("[fifth round, gap review: + a WIDE-QUERY stream - factorisation of 4-5 items over distinct vertices of 5-6 node "
+        "graphs, mostly base values so that the value oracle judges - and a CHAIN-DISTRICT stream - a district A <-> B <-> C "
+        "(<-> D) that is not a bidirected clique inside An(query), every chain vertex an ancestor of the query; seed C19e] "
+        "structured families first: (1) chains of length 3-4 with every set of shortcut edges and at most one bidirected edge x "
         "every variable Y_S with S a set of earlier vertices (nested subscripts: one intervened vertex reaches Y only through "
         "another) through ancestors / minimize / ancestral components / factorisation; (2) a subscript that fixes a direct "
         "parent to the STARRED value (Y @ +X, X -> Y) through conversion, ctf-factor test, both grouping functions, "
@@ -51,7 +54,7 @@ ASSUMPTIONS = [
     "semantic theorems are over Spec/Fscm.lean (cf family): finitely many independent exogenous variables, deterministic mechanisms, evaluation along a topological order; Compatible only asks that the mechanisms read parents of G and share noise only across bidirected edges of G; the oracle samples binary/ternary variables, one binary latent per bidirected edge, private binary noise",
     "the two merge passes are modelled as 'unions of connected components of the link graph' (the depth-first traversal order, which depends on Python set iteration, is abstracted); the second pass is modelled under the invariant 'input sets are non-empty and disjoint on graph vertices', proved for the output of the first pass (mergeCommon_base_disjoint) and imposed on the generator of the stand-alone op merge_bidirected (other inputs are compared as 'unspecified')",
     "Product.safe's ordering of the factors and the order of the returned event are compared as multisets (ordering is property C11's business)",
-    "SIMPLIFY's TypeError on events that mix None with self-intervened variables is treated as a documented input rejection (no opinion); exceptions on names outside the graph are compared by category only",
+    "SIMPLIFY's TypeError on events that mix None with self-intervened variables is treated as a documented input rejection (no opinion; since repo c8cad49 it is raised only for a VALUELESS self-intervened variable, which the ctfTRu validator now rejects itself, repo 333fa44); exceptions on names outside the graph are compared by category only",
     "generated graphs are acyclic ADMGs (the property quantifies over ADMGs); cyclic graphs are not explored (the value theorem itself does not assume acyclicity of G: a self-loop on a member of An(Y_*) makes get_counterfactual_factors reject the query)",
 ]
 EXHAUSTIVE = {"quick": False, "thorough": False}
@@ -494,7 +497,84 @@ def _cases(rng: random.Random, tier: str):
         else:
             c["e"] = rand_event(rng, g, nodes, nmax=3, p_none=0.05, kmax=2)
         out.append(c)
+    # fifth round (gap review): factorisation of WIDE queries (>= 4 items over >= 4 distinct vertices) and of queries whose
+    # ancestral set holds a district of >= 3 vertices that is NOT a bidirected clique (chain A <-> B <-> C with the middle
+    # vertex an ancestor of the query: a factorisation that groups by bidirected NEIGHBOURHOOD instead of district splits it)
+    for _ in range(max(40, n_sem // 30)):
+        out.append(_wide_query_case(rng, models))
+    for _ in range(max(40, n_sem // 30)):
+        out.append(_chain_district_case(rng, models))
     return out
+
+
+def _wide_query_case(rng, models):
+    """4-5 items over distinct vertices of a 5-node graph (6 in one case of ten; <= 3 bidirected edges), one world or
+    plain variables mostly: outside the three known-finding classes, so the value oracle judges the factorisation"""
+    while True:
+        g = _scm_graph(rng, 6 if rng.random() < 0.1 else 5)
+        nodes = G.all_nodes(g)
+        if len(nodes) >= 5 and len(g["bi"]) <= 3:
+            break
+    k = rng.choice([4, 4, 5])
+    xs = [rng.choice(nodes)] if rng.random() < 0.5 else []
+    rest = [v for v in nodes if v not in xs]
+    rng.shuffle(rest)
+    ivs = [[x, "p" if rng.random() < 0.3 else "m"] for x in xs]
+    ev = []
+    for v in rest[:k]:
+        var = V(v, ivs if rng.random() < 0.85 else [])
+        # mostly base values: an outcome that is a parent of another outcome with value +P / None falls in the known class
+        # factorisation-value:outcome-parent-value, which would leave the case to the correspondence alone
+        ev.append([var, [v, "m"] if rng.random() < 0.85 else rand_value(rng, var, p_none=0.1)])
+    op = rng.choice(["factorize", "factorize", "simplify_factorize", "factorize_classes", "sem_values"])
+    return {"op": op, "g": g, "e": ev, "seed": rng.randrange(1 << 30), "models": 1 if op == "sem_values" else models,
+            "malformed": False, "stream": "wide_query"}
+
+
+def _chain_district_case(rng, models):
+    """a chain district A <-> B <-> C (optionally <-> D) inside An(query): every chain vertex has a directed path to the
+    query variable Y; further vertices / edges at random; the query is Y (optionally with a subscript on a non-chain
+    vertex, optionally a second item on a chain vertex)"""
+    n = rng.choice([4, 5, 5])
+    lab = rng.sample(range(6), n)
+    chain, y = lab[: n - 1] if n == 4 or rng.random() < 0.4 else lab[: 3], lab[-1]
+    extra = [v for v in lab if v not in chain and v != y]
+    bi = [[chain[i], chain[i + 1]] for i in range(len(chain) - 1)]
+    di = []
+    for i, a in enumerate(chain):
+        r = rng.random()
+        if r < 0.6 or i == len(chain) - 1:
+            di.append([a, y])
+        else:
+            di.append([a, chain[i + 1]])       # reaches Y through the next chain vertex
+    for z in extra:
+        r = rng.random()
+        if r < 0.4:
+            di.append([z, rng.choice(chain)])
+        elif r < 0.7:
+            di += [[rng.choice(chain), z], [z, y]]
+        else:
+            di.append([z, y])
+    if rng.random() < 0.2:
+        bi.append([chain[-1], y])
+    g = {"nodes": [], "di": di, "bi": bi}
+    ivs = [[z, rng.choice("mp")] for z in extra if rng.random() < 0.3]
+    yv = V(y, ivs)
+    ev = [[yv, rand_value(rng, yv, p_none=0.0)]]
+    if rng.random() < 0.4:
+        a = rng.choice(chain)
+        av = V(a, [i for i in ivs])
+        ev.append([av, [a, "m"] if rng.random() < 0.8 else rand_value(rng, av, p_none=0.0)])
+    op = rng.choice(["factorize", "factorize", "simplify_factorize", "factors", "factorize_classes", "sem_values"])
+    c = {"op": op, "g": g, "seed": rng.randrange(1 << 30), "models": 1 if op == "sem_values" else models,
+         "malformed": False, "stream": "chain_district"}
+    if op == "factors":
+        # the ancestral set in ctf-factor form, as do_counterfactual_factor_factorization passes it
+        names = set(chain) | {y}
+        c["vs"] = [S_convert(g, V(v)) for v in sorted(names)]
+    else:
+        c["e"] = ev
+    return c
 
 
 def S_convert(g, v):
